@@ -49,6 +49,7 @@ type GV struct {
 	NilRef bool     // L / M realised as a nil slice / nil map
 	Typed  bool     // L / M realised with the static element type of their (same-kind scalar) elements: []string, map[string]int64, …
 	NKey   bool     // M realised with a named string type as key type (type lang string; map[lang]…)
+	AKey   bool     // M realised with the key type any (map[any]…, every key a string)
 }
 
 func gvNil() *GV            { return &GV{K: "N"} }
@@ -112,6 +113,9 @@ func (g *GV) Term() string {
 		}
 		if g.NKey {
 			sb.WriteString(" nkey")
+		}
+		if g.AKey {
+			sb.WriteString(" akey")
 		}
 		for i, e := range g.Elems {
 			sb.WriteString(" " + hx(g.Keys[i]) + " " + e.Term())
@@ -314,7 +318,7 @@ func termToGV(t *term) *GV {
 		return g
 	case "M":
 		g := &GV{K: "M"}
-		for len(args) > 0 && args[0].list == nil && (args[0].atom == "nilref" || args[0].atom == "typed" || args[0].atom == "nkey") {
+		for len(args) > 0 && args[0].list == nil && (args[0].atom == "nilref" || args[0].atom == "typed" || args[0].atom == "nkey" || args[0].atom == "akey") {
 			switch args[0].atom {
 			case "nilref":
 				g.NilRef = true
@@ -322,6 +326,8 @@ func termToGV(t *term) *GV {
 				g.Typed = true
 			case "nkey":
 				g.NKey = true
+			case "akey":
+				g.AKey = true
 			}
 			args = args[1:]
 		}
@@ -425,11 +431,14 @@ func (g *GV) Realise() any {
 		if g.NKey {
 			kt = reflect.TypeOf(namedKey(""))
 		}
+		if g.AKey {
+			kt = reflect.TypeOf((*any)(nil)).Elem()
+		}
 		vt := reflect.TypeOf((*any)(nil)).Elem()
 		if et := commonElemType(vals); g.Typed && et != nil {
 			vt = et
 		}
-		if !g.NKey && !(g.Typed && vt.Kind() != reflect.Interface) {
+		if !g.NKey && !g.AKey && !(g.Typed && vt.Kind() != reflect.Interface) {
 			out := map[string]any{}
 			for i, v := range vals {
 				out[g.Keys[i]] = v
@@ -438,7 +447,10 @@ func (g *GV) Realise() any {
 		}
 		m := reflect.MakeMapWithSize(reflect.MapOf(kt, vt), len(vals))
 		for i, v := range vals {
-			kv := reflect.ValueOf(g.Keys[i]).Convert(kt)
+			kv := reflect.ValueOf(g.Keys[i])
+			if !g.AKey {
+				kv = kv.Convert(kt)
+			}
 			var vv reflect.Value
 			if v == nil {
 				vv = reflect.Zero(vt)
@@ -485,6 +497,18 @@ func (g *GV) Realise() any {
 			return [2]int{1, 2}
 		case "complex":
 			return complex(1, 2)
+		case "intkeymap":
+			return map[int]string{1: "a", 2: "b", 3: "c"}
+		case "boolkeymap":
+			return map[bool]int{true: 1, false: 2}
+		case "mixedkeymap":
+			return map[any]int{"s": 1, 2: 2}
+		case "structkeymap":
+			return map[[2]int]string{{1, 2}: "p", {3, 4}: "q"}
+		case "emptyintkeymap":
+			return map[int]string{}
+		case "floatkeymap":
+			return map[float64]bool{1.5: true, 2.5: false}
 		}
 		return make(chan int)
 	}
